@@ -2139,3 +2139,46 @@ package ion
 //@ invariant[C12,C19] loop0 [idx_ int] -1 <= idx_ && idx_ < len(d.children) && vcCalls("bufnode.EmitTo") == idx_+1
 //@ ensures[C12,C19] err == nil ==> vcCalls("bufnode.EmitTo") == len(d.children)
 //@ safe[C06]
+
+// ---------------------------------------------------------------------------
+// skipper.go: skipping a long string (C02, C08). Skipping consumes what reading would: the
+// character after a backslash is consumed, not looked at; and the character that follows the
+// closing quotes (after whitespace) is pushed back exactly once when the string has ended.
+//@ func (*tokenizer).peekN
+//@ trusted thin: called by contract (look-ahead; assumed to keep the input attached)
+//@ requires tkStream(t)
+//@ modifies *
+//@ ensures tkStream(t)
+//@ func (*tokenizer).skipN
+//@ trusted thin: called by contract
+//@ requires tkStream(t)
+//@ modifies *
+//@ ensures tkStream(t)
+//@ func (*tokenizer).skipWhitespaceWith
+//@ trusted thin: called by contract
+//@ requires tkStream(t)
+//@ modifies *
+//@ ensures tkStream(t)
+//@ func (*tokenizer).IsTripleQuote
+//@ trusted thin: called by contract
+//@ requires tkStream(t)
+//@ modifies *
+//@ ensures tkStream(t)
+
+//@ func (*tokenizer).skipEndOfLongString
+//@ split returns
+//@ requires tkStream(t)
+//@ modifies *
+//@ counts (*tokenizer).unread
+//@ ensures[C06] tkStream(t)
+//@ ensures[C02,C08] err == nil && result0 ==> vcCalls("(*tokenizer).unread") == 1 && result1
+//@ ensures[C02,C08] !result0 ==> vcCalls("(*tokenizer).unread") == 0
+
+//@ func (*tokenizer).skipLongStringHelper
+//@ requires tkStream(t)
+//@ modifies *
+//@ invariant loop0 tkStream(t)
+//@ atcall-if-any[C02,C08] (*tokenizer).peek false
+//@ atcall-if-any[C02,C08] (*tokenizer).peekN false
+//@ atcall[C02,C08] (*tokenizer).read true
+//@ atcall[C02,C08] (*tokenizer).skipEndOfLongString true
